@@ -154,6 +154,12 @@ def run_family(ctx, cases, prop):
     if prop == "C04":
         ptexts = list(texts)
         if cases is None:
+            # model level: the printer model round-trips through the reference grammar for every parser-producible term up to the depth bound
+            pm = tlc.run("MC_Printer", "MC_Printer_quick.cfg" if ctx.quick else "MC_Printer_thorough.cfg", ctx.work, workers=16, timeout=3000, xmx="8g")
+            res.add_tlc(pm, "printer model")
+            if not pm.ok():
+                raise tlc.TLCError("the printer model does not round-trip through the reference grammar (%s): a missing-parenthesis design\n%s" % (pm.violated, pm.out[-2500:]))
+            res.extra["printer_model_terms"] = pm.distinct
             sents = parsefam.tlc_sentences(ctx, res, 5 if ctx.quick else 6)
             for sn in sents:
                 ptexts.append(parsefam.render(sn, 1))
@@ -183,6 +189,7 @@ def run_family(ctx, cases, prop):
         for c in cl:
             if c.startswith("note_"):
                 notes[c] = notes.get(c, 0) + 1
+    res.extra["drift_str_vs_printer_model"] = sum(1 for cl in fails.values() if "drift_printer_model" in cl)
     res.extra.update({"validator": st, "start_texts": len(texts), "steps": len(steps), "probes": len(events) - len(steps),
                       "steps_by_rule": by_rule, "skipped": notes})
     if steps:
